@@ -349,6 +349,13 @@ def emit_harness(ns, versions, protos, copyto) -> str:
     return "\n".join(out)
 
 
+def _limit_memory():
+    """A node whose code under test asks for an absurd amount of memory (a length read from the wrong place) gets
+    std::bad_alloc - an error it reports - instead of taking the machine down (the sandbox has no memory limit)."""
+    import resource
+    resource.setrlimit(resource.RLIMIT_AS, (6 << 30, 6 << 30))
+
+
 class CppModel:
     """Compiles the harness for the generated C++ in <modeldir>/out/cpp."""
 
@@ -407,7 +414,7 @@ class CppModel:
                     json.dump(plan2, f)
                 env = dict(os.environ, ASAN_OPTIONS="detect_leaks=0:abort_on_error=0:exitcode=99", UBSAN_OPTIONS="print_stacktrace=1:halt_on_error=1:exitcode=98")
                 try:
-                    p = subprocess.run([self.bin, pp, rp], capture_output=True, text=True, timeout=timeout, env=env)
+                    p = subprocess.run([self.bin, pp, rp], capture_output=True, text=True, timeout=timeout, env=env, preexec_fn=None if self.sanitize else _limit_memory)
                     rc, err = p.returncode, p.stderr
                 except subprocess.TimeoutExpired as e:
                     rc, err = -999, "timeout after %.0fs" % timeout
